@@ -401,6 +401,12 @@ def special_files(L):
         out.append(("TPM2B_MAX_BUFFER", len(payload).to_bytes(2, "big") + payload))
     out.append(("UINT16", b"\x0d\x0a"))
     out.append(("UINT32", b"\x20\x20\x20\x0a"))
+    # every primitive width (1, 2, 4 and 8 bytes, signed and unsigned) and a structure mixing them
+    out.append(("BYTE", b"\x0a"))
+    out.append(("INT8", b"\xff"))
+    out.append(("INT32", b"\xff\xff\xf1\xf0"))
+    out.append(("UINT64", bytes.fromhex("0102030405060708")))
+    out.append(("TPMS_CLOCK_INFO", bytes.fromhex("00000000000f4240" "00000007" "00000002" "01")))
     return out
 
 
